@@ -79,7 +79,7 @@ theorem docTree_erase {n : Nat} {tel : HTree} (d : FDocument) (dn : Nat)
     (hb : tel.erase = treeOfContent d.documentElement.toContent) :
     (docTree dn (d.before.map docVal) (d.after.map docVal) tel).erase = treeOf d := by
   unfold docTree treeOf FDocument.items
-  simp only [erase, eraseList_append, eraseList, eraseList_leavesFrom, treeOfList_append, treeOfList,
+  simp only [erase, ffx_eraseList_append, eraseList, eraseList_leavesFrom, treeOfList_append, treeOfList,
     treeOfList_docContent, hb]
 
 namespace Forest
@@ -99,12 +99,12 @@ theorem xotifyDocument_spec (f : Forest) (d : FDocument) (hg : Good f)
   have hg1 : Good f1 := good_add_root hg hb
   -- new_document_with_element
   have htelv : tel.value = .element d.documentElement.name := by
-    rw [← erase_value, hb.erase]; rfl
+    rw [← ffx_erase_value, hb.erase]; rfl
   have hnA : n ∉ handlesList f.roots := fun hm => Nat.lt_irrefl _ (hg.below n hm)
   have hget1 : f1.get? n = some tel := by
     show findList? n (f.roots ++ [tel]) = some tel
-    rw [findList?_append_of_not_mem _ _ _ hnA]
-    have := findList?_cons_self tel []
+    rw [ffx_findList?_append_of_not_mem _ _ _ hnA]
+    have := ffx_findList?_cons_self tel []
     rw [hb.handle] at this
     exact this
   have hisel : f1.isElement n = true := by
